@@ -1,13 +1,22 @@
 // Correspondence harness for C08 (epoll TimerService), deterministic part: the REAL iora::core::TimerService with its REAL
-// loop thread, single-stepped.  Two interposers inside this executable (DESIGN §3.1):
+// loop thread, single-stepped, plus helper threads that run the REAL drain() and stop().  Interposers inside this executable
+// (DESIGN §3.1):
 //   * clock_gettime(CLOCK_MONOTONIC)  -> virtual steady clock set by the op list;
-//   * epoll_wait on the service's epoll fd -> the loop thread parks there until the op `wake` lets it run ONE iteration
-//     (it then takes `_mutex`, runs collectDueLocked(Clock::now()), pre-announces, releases the lock and runs the handlers).
-// Handlers record `s<id>` when they start and `e<id>` when they end; a handler of kind `g` (gate) blocks after `s<id>` until the
-// op `release`, so cancel/schedule can be issued while a handler is running and while collected handlers have not started yet;
-// a handler of kind `x<j>` calls cancel(j) from the loop thread and records the answer (`c<j>=0|1`).
-// `drain <ms>` runs the real drain(ms) on a helper thread whose timed wait is interposed too (see below); `dwait` reports its outcome.
-// After every op the private state is printed: heap array in array order, records and periodic entries sorted by id.
+//   * epoll_wait on the service's epoll fd -> the loop thread parks there until the op `wake` lets it run ONE pass of its loop:
+//     the locked section after epoll_wait (collectDueLocked(Clock::now()), pre-announce), its handlers, then the top of the loop:
+//     with _running == false the exit branch (second collectDueLocked, its handlers) and the thread leaves runLoop;
+//   * pthread_cond_clockwait / pthread_cond_wait of the helper threads -> the waits of drain() (also the drain(5000) inside stop())
+//     sleep in short real slices and are woken - a legitimate spurious wake-up - after every op (`settle`), so the predicate and the
+//     virtual deadline are re-evaluated exactly at op boundaries: a drain completes, times out or keeps waiting as a deterministic
+//     function of the op list;
+//   * pthread_join of the stopper -> tells that stop() has reached `_thread.join()`;
+//   * pthread_mutex_lock of a drainer started with `park` -> it is held before its 4th acquisition of `_mutex`, which is the restore
+//     section of a timed-out drain (1 gate, 2 sweep, 3 wait), until the op `dgo`.
+// Ops: reset / clk / at / per / cancel / wake / release / inflight / drain <ms> [park] / dwait / dgo / stop / swait.
+// Handlers record `s<id>` when they start and `e<id>` when they end; kind `g` (gate) blocks after `s<id>` until `release`;
+// kind `x<j>` calls cancel(j) from the loop thread and records `c<j>=0|1`.
+// After every op the private state is printed: heap array in array order, records and periodic entries sorted by id, the counters
+// and flags.
 #include <algorithm>
 #include <atomic>
 #include <chrono>
@@ -58,6 +67,7 @@ using std::chrono::nanoseconds;
 static std::atomic<long long> g_base_ns{0};
 static std::atomic<long long> g_vns{0};
 static std::atomic<bool> g_virtual{false};
+static std::atomic<unsigned long> g_clock_reads{0};
 static int real_clock_gettime(clockid_t c, struct timespec* ts) { return (int)syscall(SYS_clock_gettime, c, ts); }
 extern "C" int clock_gettime(clockid_t c, struct timespec* ts)
 {
@@ -66,30 +76,180 @@ extern "C" int clock_gettime(clockid_t c, struct timespec* ts)
     long long t = g_base_ns.load(std::memory_order_relaxed) + g_vns.load(std::memory_order_relaxed);
     ts->tv_sec = t / 1000000000LL;
     ts->tv_nsec = t % 1000000000LL;
+    g_clock_reads.fetch_add(1, std::memory_order_relaxed);
     return 0;
   }
   return real_clock_gettime(c, ts);
 }
-static long long realNowNs(clockid_t c)
+static long long realNowNs()
 {
   struct timespec ts;
-  real_clock_gettime(c, &ts);
+  real_clock_gettime(CLOCK_MONOTONIC, &ts);   // the syscall, not the interposed function: real monotonic time
   return ts.tv_sec * 1000000000LL + ts.tv_nsec;
 }
 
-// ---------------------------------------------------------------------------------------------- stepping the loop thread
+// ---------------------------------------------------------------------------------------------- shared harness state
 static std::mutex g_m;
 static std::condition_variable g_cv;
 static int g_epfd = -1;            // epoll fd of the service under test
 static int g_evfd = -1;
 static bool g_step = false;        // step mode on/off (off = pass through to the kernel)
 static bool g_parked = false;      // loop thread is inside the interposed epoll_wait
-static bool g_go = false;          // permission for one iteration
+static bool g_go = false;          // permission for one pass
 static int g_gate_blocked = 0;     // id of the gate handler the loop thread is blocked in (0 = none)
 static bool g_gate_open = false;
-static bool g_gates_off = false;    // teardown: gate handlers no longer block
+static bool g_gates_off = false;   // teardown: gate handlers no longer block
 static std::vector<std::string> g_events;
 static unsigned long g_epoll_parks = 0;
+static unsigned long g_slices = 0;
+static pthread_mutex_t* g_svc_mutex = nullptr;   // &svc->_mutex
+
+// a helper thread that runs drain() or stop()
+struct Waiter
+{
+  bool active = false;      // thread exists and has not been reaped
+  bool finished = false;    // the call has returned
+  bool blocked = false;     // inside an interposed condition wait
+  bool in_join = false;     // inside pthread_join (stop(): waiting for the loop thread)
+  bool join_done = false;   // that pthread_join has returned
+  bool want_park = false;   // hold before the 4th acquisition of _mutex
+  bool parked = false;
+  bool release = false;
+  bool abort = false;       // teardown: leave every wait at once
+  int locks = 0;
+  unsigned long req = 0;    // settle requests
+  unsigned long ack = 0;    // requests after which the thread re-evaluated and went back to waiting
+  std::string result;
+  std::thread th;
+  void clear() { active = finished = blocked = in_join = join_done = want_park = parked = release = abort = false; locks = 0; req = ack = 0; result.clear(); }
+};
+static Waiter g_D;   // drainer
+static Waiter g_S;   // stopper
+static thread_local Waiter* t_w = nullptr;
+static thread_local unsigned long t_pending_ack = 0;
+
+using ClockwaitFn = int (*)(pthread_cond_t*, pthread_mutex_t*, clockid_t, const struct timespec*);
+static ClockwaitFn realClockwait()
+{
+  static ClockwaitFn f = reinterpret_cast<ClockwaitFn>(dlsym(RTLD_NEXT, "pthread_cond_clockwait"));
+  return f;
+}
+
+// the wait of a helper thread: real slices; back to the caller (which re-evaluates predicate and clock) when the service notifies,
+// when the op thread asks for it (`settle`), or at teardown
+static int waiterWait(pthread_cond_t* c, pthread_mutex_t* m)
+{
+  Waiter* w = t_w;
+  {
+    std::lock_guard<std::mutex> lk(g_m);
+    w->blocked = true;
+    if (t_pending_ack > w->ack) w->ack = t_pending_ack;   // re-evaluated after that request and still waiting
+    g_cv.notify_all();
+  }
+  for (;;)
+  {
+    long long r = realNowNs() + 200000;   // 0.2 ms
+    struct timespec ts;
+    ts.tv_sec = r / 1000000000LL;
+    ts.tv_nsec = r % 1000000000LL;
+    int rc = realClockwait()(c, m, CLOCK_MONOTONIC, &ts);
+    std::lock_guard<std::mutex> lk(g_m);
+    ++g_slices;
+    if (rc == 0)
+    {
+      w->blocked = false;
+      return 0;
+    }
+    if (w->abort || w->req > w->ack)
+    {
+      t_pending_ack = w->req;
+      w->blocked = false;
+      return 0;
+    }
+  }
+}
+
+extern "C" int pthread_cond_clockwait(pthread_cond_t* c, pthread_mutex_t* m, clockid_t clk, const struct timespec* abstime)
+{
+  if (!(clk == CLOCK_MONOTONIC && g_virtual.load(std::memory_order_acquire)))
+    return realClockwait()(c, m, clk, abstime);
+  if (t_w != nullptr)
+    return waiterWait(c, m);   // libstdc++ derives timeout / no_timeout from the (virtual) clock, not from the return value
+  // any other timed wait (stop()'s internal drain at teardown): the same span, in real time
+  long long vnow = g_base_ns.load(std::memory_order_relaxed) + g_vns.load(std::memory_order_relaxed);
+  long long rel = abstime->tv_sec * 1000000000LL + abstime->tv_nsec - vnow;
+  if (rel < 0) rel = 0;
+  long long r = realNowNs() + rel;
+  struct timespec ts;
+  ts.tv_sec = r / 1000000000LL;
+  ts.tv_nsec = r % 1000000000LL;
+  return realClockwait()(c, m, clk, &ts);
+}
+
+extern "C" int pthread_cond_wait(pthread_cond_t* c, pthread_mutex_t* m)
+{
+  using Fn = int (*)(pthread_cond_t*, pthread_mutex_t*);
+  static Fn real = reinterpret_cast<Fn>(dlsym(RTLD_NEXT, "pthread_cond_wait"));
+  if (t_w != nullptr && g_virtual.load(std::memory_order_acquire))
+    return waiterWait(c, m);   // drain(0): untimed wait
+  return real(c, m);
+}
+
+extern "C" int pthread_join(pthread_t th, void** ret)
+{
+  using Fn = int (*)(pthread_t, void**);
+  static Fn real = reinterpret_cast<Fn>(dlsym(RTLD_NEXT, "pthread_join"));
+  Waiter* w = t_w;
+  if (w == nullptr) return real(th, ret);
+  {
+    std::lock_guard<std::mutex> lk(g_m);
+    w->in_join = true;
+    g_cv.notify_all();
+  }
+  int rc = real(th, ret);
+  {
+    std::lock_guard<std::mutex> lk(g_m);
+    w->in_join = false;
+    w->join_done = true;
+    g_cv.notify_all();
+  }
+  return rc;
+}
+
+extern "C" int pthread_mutex_lock(pthread_mutex_t* m)
+{
+  using Fn = int (*)(pthread_mutex_t*);
+  static Fn real = reinterpret_cast<Fn>(dlsym(RTLD_NEXT, "pthread_mutex_lock"));
+  Waiter* w = t_w;
+  if (w != nullptr && m == g_svc_mutex && m != nullptr)
+  {
+    bool park = false;
+    {
+      real(g_m.native_handle());
+      ++w->locks;
+      park = w->want_park && w->locks == 4 && !w->abort;
+      if (park)
+      {
+        w->parked = true;
+        g_cv.notify_all();
+      }
+      pthread_mutex_unlock(g_m.native_handle());
+    }
+    while (park)
+    {
+      struct timespec ts{0, 200000};
+      nanosleep(&ts, nullptr);
+      real(g_m.native_handle());
+      if (w->release || w->abort)
+      {
+        w->parked = false;
+        park = false;
+      }
+      pthread_mutex_unlock(g_m.native_handle());
+    }
+  }
+  return real(m);
+}
 
 extern "C" int epoll_wait(int epfd, struct epoll_event* ev, int maxev, int timeout)
 {
@@ -114,10 +274,11 @@ extern "C" int epoll_wait(int epfd, struct epoll_event* ev, int maxev, int timeo
   return (int)syscall(SYS_epoll_wait, epfd, ev, maxev, timeout);
 }
 
+// the loop thread is quiescent: parked in epoll_wait, blocked in a gate handler, or gone (the stopper's join has returned)
 static void waitQuiescent()
 {
   std::unique_lock<std::mutex> lk(g_m);
-  g_cv.wait(lk, [] { return (g_parked && !g_go) || g_gate_blocked != 0; });
+  g_cv.wait(lk, [] { return (g_parked && !g_go) || g_gate_blocked != 0 || g_S.join_done; });
 }
 
 static std::string takeEvents()
@@ -129,71 +290,6 @@ static std::string takeEvents()
   return o.empty() ? "-" : o;
 }
 
-// ---------------------------------------------------------------------------------------------- the thread that calls drain()
-// `drain <ms>` runs the REAL TimerService::drain(ms) on a helper thread.  Its timed wait (libstdc++: pthread_cond_clockwait on
-// CLOCK_MONOTONIC) is interposed: the drainer sleeps in short real slices and is woken - a legitimate spurious wake-up - after
-// every op of the op list (`settle`), so that it re-evaluates its predicate and the (virtual) deadline exactly there: the drain
-// completes, times out (restoring Running/_accepting) or keeps waiting as a deterministic function of the op list.
-static thread_local bool t_is_drainer = false;
-static bool g_d_active = false;      // a drainer thread exists and has not been reaped
-static bool g_d_finished = false;    // drain() has returned
-static bool g_d_blocked = false;     // the drainer is inside the interposed timed wait
-static bool g_d_abort = false;       // teardown: leave the wait at the next slice
-static unsigned long g_d_req = 0;    // settle requests issued by the op thread
-static unsigned long g_d_ack = 0;    // requests after which the drainer has re-evaluated and gone back to waiting
-static std::string g_d_result;       // ok | timeout | refused
-static unsigned long g_d_slices = 0;
-
-extern "C" int pthread_cond_clockwait(pthread_cond_t* c, pthread_mutex_t* m, clockid_t clk, const struct timespec* abstime)
-{
-  using Fn = int (*)(pthread_cond_t*, pthread_mutex_t*, clockid_t, const struct timespec*);
-  static Fn real = reinterpret_cast<Fn>(dlsym(RTLD_NEXT, "pthread_cond_clockwait"));
-  if (!(clk == CLOCK_MONOTONIC && g_virtual.load(std::memory_order_acquire)))
-    return real(c, m, clk, abstime);
-  if (!t_is_drainer)
-  {
-    // any other timed wait (stop()'s internal drain at teardown): the same span, in real time
-    long long vnow = g_base_ns.load(std::memory_order_relaxed) + g_vns.load(std::memory_order_relaxed);
-    long long rel = abstime->tv_sec * 1000000000LL + abstime->tv_nsec - vnow;
-    if (rel < 0) rel = 0;
-    long long r = realNowNs(CLOCK_MONOTONIC) + rel;
-    struct timespec ts;
-    ts.tv_sec = r / 1000000000LL;
-    ts.tv_nsec = r % 1000000000LL;
-    return real(c, m, clk, &ts);
-  }
-  static thread_local unsigned long pending_ack = 0;
-  {
-    std::lock_guard<std::mutex> lk(g_m);
-    g_d_blocked = true;
-    if (pending_ack > g_d_ack) g_d_ack = pending_ack;   // re-evaluated after that request and still not done
-    g_cv.notify_all();
-  }
-  for (;;)
-  {
-    long long r = realNowNs(CLOCK_MONOTONIC) + 200000;   // 0.2 ms slice
-    struct timespec ts;
-    ts.tv_sec = r / 1000000000LL;
-    ts.tv_nsec = r % 1000000000LL;
-    int rc = real(c, m, clk, &ts);
-    std::lock_guard<std::mutex> lk(g_m);
-    ++g_d_slices;
-    if (rc == 0)
-    {
-      // notified by the service (or spurious): back to the caller, which re-evaluates (libstdc++ derives timeout/no_timeout from
-      // the clock, not from this return value)
-      g_d_blocked = false;
-      return 0;
-    }
-    if (g_d_abort || g_d_req > g_d_ack)
-    {
-      pending_ack = g_d_req;
-      g_d_blocked = false;
-      return 0;
-    }
-  }
-}
-
 // ---------------------------------------------------------------------------------------------- watchdog
 static std::atomic<long long> g_op_started_ns{0};
 static void watchdog()
@@ -203,7 +299,7 @@ static void watchdog()
     struct timespec ts{0, 50000000};
     nanosleep(&ts, nullptr);
     long long s = g_op_started_ns.load(std::memory_order_acquire);
-    if (s != 0 && realNowNs(CLOCK_REALTIME) - s > 12000000000LL)
+    if (s != 0 && realNowNs() - s > 12000000000LL)
     {
       std::fflush(stdout);
       std::fputs("hang\n", stdout);
@@ -225,8 +321,8 @@ struct S
 {
   std::unique_ptr<TimerService> svc;
   TimerService* raw = nullptr;   // stays valid while the destructor runs (handlers of the exit path may still call cancel)
-  std::thread drainer;
   std::vector<std::shared_ptr<HInfo>> hs;
+  bool loopGone = false;         // the loop thread has left runLoop and stop() has returned
 
   std::function<void()> handler(std::shared_ptr<HInfo> h)
   {
@@ -258,57 +354,120 @@ struct S
     };
   }
 
-  // after every op: let a waiting drainer re-evaluate predicate and deadline now (forced spurious wake-up), and wait until it has
-  // either returned from drain() or gone back to waiting
+  // after every op: every waiting helper thread re-evaluates now (forced spurious wake-up); wait until each of them has returned, is
+  // waiting again, is held before the restore section, or sits in pthread_join; a stopper whose join has returned runs to the end
   void settle()
   {
     std::unique_lock<std::mutex> lk(g_m);
-    if (!g_d_active || g_d_finished) return;
-    unsigned long want = ++g_d_req;
-    g_cv.wait(lk, [want] { return g_d_finished || (g_d_blocked && g_d_ack >= want); });
+    for (Waiter* w : {&g_D, &g_S})
+    {
+      if (!w->active || w->finished) continue;
+      if (w->join_done)
+      {
+        g_cv.wait(lk, [w] { return w->finished; });
+        continue;
+      }
+      if (w->in_join || w->parked) continue;
+      unsigned long want = ++w->req;
+      g_cv.wait(lk, [w, want] { return w->finished || (w->blocked && w->ack >= want) || w->in_join || w->parked; });
+      if (w->join_done && !w->finished) g_cv.wait(lk, [w] { return w->finished; });
+    }
+    if (g_S.active && g_S.finished && g_S.join_done) loopGone = true;
   }
 
-  // `drain <ms>`: start drain(ms) on the helper thread; answer once it has returned or is waiting
-  std::string startDrain(std::uint32_t ms)
+  std::string where(Waiter& w, const char* tag)
+  {
+    // caller holds g_m
+    if (!w.active) return std::string(tag) + "=none";
+    if (w.finished) return std::string(tag) + "=" + w.result;
+    if (w.parked) return std::string(tag) + "=parked";
+    if (w.in_join) return std::string(tag) + "=join";
+    return std::string(tag) + (&w == &g_S ? "=drainwait" : "=wait");
+  }
+
+  std::string startDrain(std::uint32_t ms, bool park)
   {
     {
       std::lock_guard<std::mutex> lk(g_m);
-      if (g_d_active) return "d=busy";
-      g_d_active = true;
-      g_d_finished = false;
-      g_d_blocked = false;
-      g_d_result.clear();
+      if (g_D.active) return "d=busy";
+      g_D.clear();
+      g_D.active = true;
+      g_D.want_park = park;
     }
     TimerService* p = raw;
-    drainer = std::thread([p, ms]() {
-      t_is_drainer = true;
+    g_D.th = std::thread([p, ms]() {
+      t_w = &g_D;
       auto r = p->drain(ms);
       std::string res = r.success ? "ok" : (r.message.rfind("Can only drain", 0) == 0 ? "refused" : "timeout");
       std::lock_guard<std::mutex> lk(g_m);
-      g_d_result = res;
-      g_d_finished = true;
+      g_D.result = res;
+      g_D.finished = true;
       g_cv.notify_all();
     });
-    {
-      std::unique_lock<std::mutex> lk(g_m);
-      g_cv.wait(lk, [] { return g_d_finished || g_d_blocked; });
-      if (!g_d_finished) return "d=wait";
-    }
-    return reap();
+    std::unique_lock<std::mutex> lk(g_m);
+    g_cv.wait(lk, [] { return g_D.finished || g_D.blocked || g_D.parked; });
+    if (!g_D.finished) return where(g_D, "d");
+    lk.unlock();
+    return reap(g_D, "d");
   }
 
-  // `dwait`: report the outcome of the drain if it has returned (the drainer is settled after every op)
-  std::string reap()
+  std::string startStop()
   {
     {
       std::lock_guard<std::mutex> lk(g_m);
-      if (!g_d_active) return "d=none";
-      if (!g_d_finished) return "d=blocked";
+      if (g_S.active) return "s=busy";
+      g_S.clear();
+      g_S.active = true;
     }
-    drainer.join();
+    TimerService* p = raw;
+    g_S.th = std::thread([p]() {
+      t_w = &g_S;
+      auto r = p->stop();
+      std::lock_guard<std::mutex> lk(g_m);
+      g_S.result = r.success ? "ok" : "refused";
+      g_S.finished = true;
+      g_cv.notify_all();
+    });
+    std::unique_lock<std::mutex> lk(g_m);
+    g_cv.wait(lk, [] { return g_S.finished || g_S.blocked || g_S.in_join; });
+    return where(g_S, "s");
+  }
+
+  // report where the helper thread is; reap it once its call has returned (the stopper is kept: its flags say the loop thread is gone)
+  std::string reap(Waiter& w, const char* tag)
+  {
+    std::unique_lock<std::mutex> lk(g_m);
+    std::string o = where(w, tag);
+    if (w.active && w.finished && &w == &g_D)
+    {
+      lk.unlock();
+      w.th.join();
+      lk.lock();
+      w.active = false;
+    }
+    return o;
+  }
+
+  std::string go()
+  {
+    std::unique_lock<std::mutex> lk(g_m);
+    if (!g_D.active || !g_D.parked) return "d=notparked";
+    g_D.release = true;
+    g_cv.wait(lk, [] { return g_D.finished; });
+    return "d=go";
+  }
+
+  void finishWaiter(Waiter& w)
+  {
+    if (!w.th.joinable()) return;
+    {
+      std::lock_guard<std::mutex> lk(g_m);
+      w.abort = true;
+      w.release = true;
+    }
+    w.th.join();
     std::lock_guard<std::mutex> lk(g_m);
-    g_d_active = false;
-    return "d=" + g_d_result;
+    w.clear();
   }
 
   void teardown()
@@ -321,31 +480,22 @@ struct S
       g_gate_open = true;
       g_cv.notify_all();
     }
-    for (auto& h : hs) if (h->id) svc->cancel(h->id);   // nothing live: stop()'s internal drain completes at once
-    g_vns.fetch_add(6000000000LL);   // whatever a (mutated) cancel left behind is due or beyond the drain horizon now
-    if (drainer.joinable())
-    {
-      // a drain still waiting: its deadline (<= 5 s) has passed on the virtual clock now; wake it for good
-      {
-        std::lock_guard<std::mutex> lk(g_m);
-        g_d_abort = true;
-      }
-      drainer.join();
-      std::lock_guard<std::mutex> lk(g_m);
-      g_d_active = false;
-      g_d_finished = false;
-      g_d_abort = false;
-      g_d_blocked = false;
-    }
+    for (auto& h : hs) if (h->id) svc->cancel(h->id);   // nothing live: a drain completes at once
+    g_vns.fetch_add(6000000000LL);   // whatever a (mutated) cancel left behind is due or beyond every drain horizon now
+    svc->poke();
+    finishWaiter(g_S);    // a stop() under way runs to its end: its waits give up, the loop thread runs freely and exits
+    finishWaiter(g_D);
     delete svc.release();
     raw = nullptr;
     hs.clear();
+    loopGone = false;
     std::lock_guard<std::mutex> lk(g_m);
     g_events.clear();
     g_gate_blocked = 0;
     g_parked = false;
     g_go = false;
     g_gates_off = false;
+    g_svc_mutex = nullptr;
   }
 
   void reset(std::size_t maxTimers, std::size_t maxPeriodic, long long maxTimeoutMs)
@@ -368,9 +518,10 @@ struct S
       std::lock_guard<std::mutex> lk(g_m);
       g_epfd = svc->_epollFd;
       g_evfd = svc->_eventFd.load();
+      g_svc_mutex = svc->_mutex.native_handle();
     }
     // the loop thread may already sit in the real epoll_wait (it started before we knew the fd): poke it once so that its next
-    // epoll_wait is the interposed one; the extra iteration collects nothing (no timers yet)
+    // epoll_wait is the interposed one; the extra pass collects nothing (no timers yet)
     svc->poke();
     std::unique_lock<std::mutex> lk(g_m);
     g_cv.wait(lk, [] { return g_parked; });
@@ -415,6 +566,7 @@ struct S
     case iora::common::LifecycleState::Stopped: o << " life=S"; break;
     default: o << " life=?"; break;
     }
+    o << " run=" << (svc->_running.load() ? 1 : 0);
     return o.str();
   }
 };
@@ -446,13 +598,13 @@ static bool parseKind(const std::string& s, HInfo& h)
 
 int main()
 {
-  g_base_ns.store(realNowNs(CLOCK_MONOTONIC) + 30LL * 86400 * 1000000000LL);
+  g_base_ns.store(realNowNs() + 30LL * 86400 * 1000000000LL);
   g_virtual.store(true);
   std::thread(watchdog).detach();
   S st;
   int rc = vh::runLines([&](const std::vector<std::string>& t) -> std::string {
     std::fflush(stdout);
-    g_op_started_ns.store(realNowNs(CLOCK_REALTIME), std::memory_order_release);
+    g_op_started_ns.store(realNowNs(), std::memory_order_release);
     std::string out = guarded([&]() -> std::string {
       long long a = 0, b = 0, c = 0;
       if (t.size() == 4 && t[0] == "reset" && parseInt(t[1], a) && parseInt(t[2], b) && parseInt(t[3], c) && a >= 0 && b >= 0)
@@ -470,6 +622,13 @@ int main()
       {
         g_vns.store(a);
         return "ok";
+      }
+      if (t.size() == 1 && t[0] == "vclock")
+      {
+        // the steady clock the service reads IS the virtual one
+        auto now = std::chrono::duration_cast<nanoseconds>(TimerService::Clock::now().time_since_epoch()).count();
+        bool ok = now == g_base_ns.load() + g_vns.load() && g_clock_reads.load() > 0;
+        return ok ? "virtual" : "clock-not-interposed";
       }
       if (t.size() == 3 && t[0] == "at" && parseInt(t[1], a))
       {
@@ -498,6 +657,7 @@ int main()
       }
       if (t.size() == 1 && t[0] == "wake")
       {
+        if (st.loopGone) return "gone \x01";
         if (blocked) return "busy";
         {
           std::lock_guard<std::mutex> lk(g_m);
@@ -513,7 +673,7 @@ int main()
         {
           std::lock_guard<std::mutex> lk(g_m);
           g_gate_open = true;
-          g_gate_blocked = 0;     // the handler leaves the gate; quiescent again = parked, or blocked in the next gate
+          g_gate_blocked = 0;     // the handler leaves the gate; quiescent again = parked, blocked in the next gate, or gone
           g_cv.notify_all();
         }
         waitQuiescent();
@@ -521,10 +681,16 @@ int main()
       }
       if (t.size() == 1 && t[0] == "inflight")
         return std::to_string(st.svc->getInFlightCount());
-      if (t.size() == 2 && t[0] == "drain" && parseInt(t[1], a) && a > 0 && a <= 5000)
-        return st.startDrain(static_cast<std::uint32_t>(a)) + " \x01";
+      if ((t.size() == 2 || (t.size() == 3 && t[2] == "park")) && t[0] == "drain" && parseInt(t[1], a) && a >= 0 && a <= 5000)
+        return st.startDrain(static_cast<std::uint32_t>(a), t.size() == 3) + " \x01";
       if (t.size() == 1 && t[0] == "dwait")
-        return st.reap() + " \x01";
+        return st.reap(g_D, "d") + " \x01";
+      if (t.size() == 1 && t[0] == "dgo")
+        return st.go() + " \x01";
+      if (t.size() == 1 && t[0] == "stop")
+        return st.startStop() + " \x01";
+      if (t.size() == 1 && t[0] == "swait")
+        return st.reap(g_S, "s") + " \x01";
       return "bad-op";
     });
     if (st.svc && out != "bad-op")
@@ -536,9 +702,9 @@ int main()
     g_op_started_ns.store(0, std::memory_order_release);
     return out;
   });
-  g_op_started_ns.store(realNowNs(CLOCK_REALTIME), std::memory_order_release);   // the final teardown is watched too
+  g_op_started_ns.store(realNowNs(), std::memory_order_release);   // the final teardown is watched too
   st.teardown();
   g_op_started_ns.store(0, std::memory_order_release);
-  std::fprintf(stderr, "epoll_parks=%lu drain_slices=%lu\n", g_epoll_parks, g_d_slices);
+  std::fprintf(stderr, "epoll_parks=%lu wait_slices=%lu clock_reads=%lu\n", g_epoll_parks, g_slices, g_clock_reads.load());
   return rc;
 }
